@@ -106,6 +106,11 @@ func genScenario(prop string, rng *rand.Rand) *Scenario {
 			sc.Buffered = []int{4, 16, 4096}[rng.Intn(3)]
 		}
 	}
+	// C05: a peer that does not read. Every transport write then lasts until the transport is closed, so it is Close
+	// (there is always a closer in these scenarios) that ends it; not on channels that wait for pending writes without bound
+	if prop == "C05" && sc.FailAt == 0 && sc.Buffered == 0 && (sc.Sync || !sc.Until) && rng.Intn(3) == 0 {
+		sc.Stalled = true
+	}
 	// 1/12 of the queued scenarios carry payloads of 33000 bytes: two of them exceed every 64 KiB threshold
 	sc.Big = (prop == "C01" || prop == "C02" || prop == "C06" || prop == "C10") && !sc.Sync && rng.Intn(8) == 0
 	if prop == "C10" && rng.Intn(3) == 0 {
